@@ -454,6 +454,7 @@ type C11DecErr struct {
 	Class string // truncated | noncanonical-compact | compact-out-of-range | bad-bool | bad-option-tag | bad-result-tag | bad-enum-index | map-keys-not-strictly-ascending
 	Leaf  string // kind of the node at which decoding failed
 	Off   int    // offset of the node in the input
+	InArr bool   // the failing node is (directly) an element of a fixed-size array
 }
 
 func (e *C11DecErr) Error() string { return fmt.Sprintf("%s at offset %d (%s)", e.Class, e.Off, e.Leaf) }
@@ -672,6 +673,9 @@ func (d *c11dec) dec(t *C11Type) (*C11Val, *C11DecErr) {
 		for i := 0; i < t.N; i++ {
 			x, e := d.dec(t.Elem)
 			if e != nil {
+				if _, _, fixed := c11fixedWidth(t.Elem.Kind); fixed && e.Leaf == C11KindName(t.Elem) {
+					e.InArr = true // (elements with a length prefix of their own keep their shape)
+				}
 				return nil, e
 			}
 			v.Elems = append(v.Elems, x)
